@@ -62,6 +62,8 @@ func (c16) Classes() []sim.Class {
 			sim.Class{Name: "readdir", Engine: e, Quick: 1500, Thorough: 50000},
 			sim.Class{Name: "faults", Engine: e, Quick: 2500, Thorough: 80000},
 			sim.Class{Name: "descriptors", Engine: e, Quick: 300, Thorough: 10000},
+			// names that are prefixes of each other, directory descriptors as bases of path calls, renames
+			sim.Class{Name: "namespace", Engine: e, Quick: 1200, Thorough: 40000},
 		)
 	}
 	return cs
@@ -120,11 +122,22 @@ type runState struct {
 	lastFreed                                     map[int32]bool
 	faulty                                        bool
 	ro                                            bool // C17 mode: nothing may change
+	dense                                         bool // names from densePool
+	prefixFds                                     map[*fdesc]bool
+	nsFocus                                       bool // class namespace: directory descriptors as bases, renames
 }
 
-var namePool = []string{"a", "b", "c", "d1", "d2", "longer-name-x"}
+var namePool = []string{"a", "b", "c", "d1", "d2", "longer-name-x", "ab", "d"} // "a"/"ab", "d"/"d1": names that are string prefixes of siblings
 
-func (s *runState) pickName() string { return tape.Pick(s.t, namePool) }
+// densePool: every name is a string prefix of a sibling or has one (a third of the runs of C16)
+var densePool = []string{"a", "ab", "d", "d1", "b"}
+
+func (s *runState) pickName() string {
+	if s.dense {
+		return tape.Pick(s.t, densePool)
+	}
+	return tape.Pick(s.t, namePool)
+}
 
 // pickPath returns a relative path; mostly existing things.
 func (s *runState) pickPath() string {
@@ -227,7 +240,7 @@ func altStr(alts []uint32) string {
 func buildTree(t *tape.Tape, m *model, dir *inode, hostDir string, depth int, s *runState) {
 	n := t.Choose(4)
 	for i := 0; i < n; i++ {
-		name := tape.Pick(t, namePool)
+		name := s.pickName()
 		if dir.kids[name] != nil {
 			continue
 		}
@@ -255,6 +268,8 @@ func (c16) Run(t *tape.Tape, cfg sim.Config) (res sim.Result) {
 	if err != nil {
 		panic(err)
 	}
+	s.dense = t.Chance(1, 3) || cfg.Class == "namespace"
+	s.nsFocus = cfg.Class == "namespace"
 	buildTree(t, s.m, s.m.root, e.root, 0, s)
 	if cfg.Class == "readdir" {
 		// one directory with many entries of varying name lengths
@@ -311,6 +326,20 @@ func (c16) Run(t *tape.Tape, cfg sim.Config) (res sim.Result) {
 		}
 		nops = t.Range(20, 60)
 	}
+	if s.nsFocus {
+		// every directory of the initial tree is opened first (two levels), as a base for later path calls
+		for _, n1 := range sortedKids(s.m.root) {
+			if k1 := s.m.root.kids[n1]; k1.dir && res.Violation == nil {
+				s.doPathOpen(3, 1, n1, oDirectory, rightRead, 0)
+				for _, n2 := range sortedKids(k1) {
+					if k1.kids[n2].dir && res.Violation == nil && t.Chance(1, 2) {
+						s.doPathOpen(3, 1, n1+"/"+n2, oDirectory, rightRead, 0)
+					}
+				}
+			}
+		}
+		nops = t.Range(20, 60)
+	}
 	for i := 0; i < nops && res.Violation == nil; i++ {
 		s.step(cfg.Class)
 		res.Steps++
@@ -342,6 +371,8 @@ func (s *runState) step(class string) {
 		k = t.Weighted(8, 8, 1, 0, 0, 0, 0, 0, 3, 0, 0, 0, 1, 0, 0, 0, 0, 0, 0)
 	case "readdir":
 		k = t.Weighted(3, 1, 1, 1, 0, 0, 0, 0, 0, 1, 0, 0, 0, 0, 1, 1, 1, 1, 10)
+	case "namespace":
+		k = t.Weighted(8, 1, 1, 1, 0, 0, 0, 0, 1, 6, 0, 0, 0, 0, 4, 2, 2, 6, 2)
 	default:
 		k = t.Weighted(8, 4, 5, 5, 3, 3, 3, 2, 3, 3, 2, 2, 2, 1, 3, 2, 2, 3, 3)
 	}
@@ -422,6 +453,9 @@ func (s *runState) resolve(dirfd int32, p string) resolved {
 	if f.drift {
 		return resolved{skip: true}
 	}
+	if s.prefixFds[f] {
+		s.res.Stat("probe.path_resolved_relative_to_such_a_directory_after_the_rename", 1)
+	}
 	if p == "" {
 		clean = "."
 	}
@@ -435,7 +469,7 @@ func (s *runState) resolve(dirfd int32, p string) resolved {
 func (s *runState) opPathOpen(class string) {
 	t := s.t
 	dirfd := int32(3)
-	if t.Chance(1, 5) {
+	if t.Chance(1, 5) || (s.nsFocus && t.Chance(1, 2)) {
 		dirfd = s.pickFd(true)
 	}
 	p := s.pickPath()
@@ -455,7 +489,7 @@ func (s *runState) opPathOpen(class string) {
 	case 5:
 		oflags = oCreat | oTrunc
 	}
-	if t.Chance(1, 12) {
+	if t.Chance(1, 12) || (s.nsFocus && t.Chance(1, 2)) {
 		oflags |= oDirectory
 	}
 	if t.Chance(1, 4) {
@@ -1150,7 +1184,7 @@ func (s *runState) opFilestatGet() {
 		// path_filestat_get
 		p := s.pickPath()
 		dirfd := int32(3)
-		if t.Chance(1, 3) {
+		if t.Chance(1, 3) || (s.nsFocus && t.Chance(1, 2)) {
 			dirfd = s.pickFd(true)
 		}
 		what := fmt.Sprintf("path_filestat_get(dirfd=%d,%q)", dirfd, p)
@@ -1378,7 +1412,7 @@ func (s *runState) opSync() {
 func (s *runState) opMkdir() {
 	p := s.pickPath()
 	dirfd := int32(3)
-	if s.t.Chance(1, 6) {
+	if s.t.Chance(1, 6) || (s.nsFocus && s.t.Chance(1, 2)) {
 		dirfd = s.pickFd(true)
 	}
 	what := fmt.Sprintf("path_create_directory(dirfd=%d,%q)", dirfd, p)
@@ -1547,6 +1581,17 @@ func (s *runState) opRename() {
 			return
 		}
 		s.m.markDrift(src)
+		// rare condition: a directory descriptor that is NOT affected by this rename was opened under a
+		// name the renamed path is a string prefix of ("ab" while "a" is renamed)
+		for _, f := range s.m.fds {
+			if f.ino != nil && f.ino.dir && !f.preopen && !f.drift && f.ino != src && strings.HasPrefix(strings.TrimPrefix(f.opath, "/"), strings.TrimPrefix(r1.lk.full, "/")) {
+				if s.prefixFds == nil {
+					s.prefixFds = map[*fdesc]bool{}
+				}
+				s.prefixFds[f] = true
+				s.res.Stat("probe.rename_of_a_name_that_is_a_string_prefix_of_an_open_directorys_name", 1)
+			}
+		}
 		if dst != nil {
 			s.m.markDrift(dst)
 			dst.nlink = 0
